@@ -6,8 +6,14 @@
 (* when `.flip()` is applied to it.  A member is                                                  *)
 (*    [name, flow \in {"In","Out"}, dims (sequence of naturals, most major first),                *)
 (*     kind = "port": w, s (width, signedness), init;   kind = "sig": sub (a signature expression)]*)
-(* A SIGNATURE (plain value, `Sig`) is the same without explicit flips: Norm(x) evaluates every   *)
-(* `.flip()` with Flip; in a Sig the field `sub` of a signature member is itself a Sig.           *)
+(* plus nm (naming) and id:  nm = "anon": `Signature({...})`, compared structurally;               *)
+(*   nm = "ident": an instance of a Signature subclass without __eq__, compared by identity -- id   *)
+(*   names the object, two nodes with the same id are THE SAME signature object;                   *)
+(*   nm = "struct": an instance of a subclass with a structural __eq__ (class parameter id).       *)
+(* A SIGNATURE (value) is the node [nm, id, fl, ms] obtained by Norm(x): for an anonymous node    *)
+(* every `.flip()` is evaluated into the members' flows (fl = FALSE); a named node keeps the       *)
+(* object's own members in ms and fl says whether it is seen through the flipping proxy.  With    *)
+(* this representation `==` of the library is plain equality of the values (see Equality below).  *)
 (*                                                                                                *)
 (* The module is a BUILDER state machine: the reachable states with a closed stack enumerate all  *)
 (* signature trees within the bounds; every such state carries (variable exp) the values the real *)
@@ -24,6 +30,8 @@ CONSTANTS MaxDepth,      \* nesting depth of signatures (1 = ports only)
           Variants,      \* BOOLEAN: also compute all single-point corruptions
           Triples,       \* BOOLEAN: corruptions of the 3-tuple <<S,F,F>> as well
           Quiet,         \* BOOLEAN: also compute the tuples with a leaf that no argument drives
+          Swaps,         \* BOOLEAN: also compute the objects with one sub-interface swapped for its flip
+          RootNm, SubNm, \* sets of namings for the top-level signature / for sub-signatures
           Mutant         \* "" or a seeded specification error (must violate a theorem)
 
 (* values for the cfg file (cfg syntax has no tuples / records) *)
@@ -38,6 +46,9 @@ AttrsFew  == {U1(0), S2(1)}
 AttrsOne  == {U2(1)}
 FlipsBoth == BOOLEAN
 FlipsNo   == {FALSE}
+NmAnon    == {"anon"}
+NmNamed   == {"ident", "struct"}
+NmAll     == {"anon", "ident", "struct"}
 
 VARIABLES stack,   \* frames [flow, dims, fl, ms]; stack[1] is the signature under construction
           exp      \* expected observations for the tree when the stack is closed
@@ -67,13 +78,31 @@ IdxSeq(dims) ==
 ----------------------------------------------------------------------------
 (* Flipping.  "The flip operation changes the In data flow of a member to Out and vice versa",  *)
 (* "leaving everything else about the object intact" (Member.flip: identical other than flow).  *)
-Flip(sig) == [i \in DOMAIN sig |-> [sig[i] EXCEPT !.flow = FlipFlow(@)]]
+FlipMs(ms) == [i \in DOMAIN ms |-> [ms[i] EXCEPT !.flow = FlipFlow(@)]]
 
 RECURSIVE Norm(_)
 Norm(x) == LET ms0 == [i \in DOMAIN x.ms |->
                          IF x.ms[i].kind = "sig" THEN [x.ms[i] EXCEPT !.sub = Norm(@)]
                          ELSE [x.ms[i] EXCEPT !.sub = <<>>]]
-           IN IF x.fl THEN Flip(ms0) ELSE ms0
+           IN IF x.nm = "anon"
+              THEN [nm |-> "anon", id |-> 0, fl |-> FALSE, ms |-> IF x.fl THEN FlipMs(ms0) ELSE ms0]
+              ELSE [nm |-> x.nm, id |-> x.id, fl |-> x.fl, ms |-> ms0]
+
+(* sig.members: the members as seen through the signature (flipped for a flipped named one)       *)
+Mem(sig) == IF sig.fl THEN FlipMs(sig.ms) ELSE sig.ms
+(* sig.flip().  Mutant "named_flip_is_noop": flipping a named signature yields an equal value.   *)
+Flip(sig) == IF sig.nm = "anon" THEN [sig EXCEPT !.ms = FlipMs(@)]
+             ELSE IF Mutant = "named_flip_is_noop" THEN sig
+             ELSE [sig EXCEPT !.fl = ~@]
+
+(* Equality (Signature.__eq__): "If both are instances of the base Signature class, they are     *)
+(* compared structurally (self.members == other.members); otherwise they are compared by          *)
+(* identity"; a subclass may define its own (here: same class parameter and equal members).       *)
+(* A flipped signature equals only a flipped one, whose unflipped signatures are equal -- except  *)
+(* for anonymous ones, where the flipped members are compared.  Members are equal when flow,      *)
+(* description, initial value and dimensions are.  All of this is `=` on the values:             *)
+(*   anon: equal members (flips already evaluated);  ident: same id (hence same members) and     *)
+(*   same fl;  struct: same id, same fl, equal members;  different namings are never equal.      *)
 
 (* Member.signature: "In(...) used with a signature rather than a shape" flips that signature.   *)
 MemberSig(m) == IF m.flow = "In" /\ ~(Mutant = "no_flip_into_dimensioned_sub" /\ m.dims # <<>>)
@@ -83,8 +112,8 @@ MemberSig(m) == IF m.flow = "In" /\ ~(Mutant = "no_flip_into_dimensioned_sub" /\
 (* top-level interface.                                                                         *)
 RECURSIVE Flatten(_, _)
 Flatten(sig, path) ==
-    ConcatAll([i \in DOMAIN sig |->
-        LET m == sig[i]
+    ConcatAll([i \in DOMAIN sig.ms |->
+        LET m == Mem(sig)[i]
             ix == IdxSeq(m.dims) IN
         ConcatAll([k \in DOMAIN ix |->
             LET p == path \o <<m.name>> \o ix[k] IN
@@ -94,8 +123,8 @@ Flatten(sig, path) ==
 Leaves(sig) == Range(Flatten(sig, <<>>))
 
 RECURSIVE NumLeaves(_)
-NumLeaves(sig) == SumSeq([i \in DOMAIN sig |->
-                    Prod(sig[i].dims) * (IF sig[i].kind = "port" THEN 1 ELSE NumLeaves(sig[i].sub))])
+NumLeaves(sig) == SumSeq([i \in DOMAIN sig.ms |->
+                    Prod(sig.ms[i].dims) * (IF sig.ms[i].kind = "port" THEN 1 ELSE NumLeaves(sig.ms[i].sub))])
 
 (* Effective direction, stated as in the guide: "the final port direction is determined by how  *)
 (* many nested In(...) members there are. For each In(...) signature wrapping a port, the data  *)
@@ -121,12 +150,26 @@ EffDir(x, path) == IF Reversals(x, path) % 2 = 0 THEN DeclaredFlow(x, path)
 (* elements are the flipped sub-interfaces.                                                     *)
 RECURSIVE Nodes(_, _)
 Nodes(sig, path) ==
-    UNION {LET m == sig[i] IN
+    UNION {LET m == Mem(sig)[i] IN
            UNION {LET p == path \o <<m.name>> \o ix IN
                   {[path |-> p, plain |-> (MemberSig(m) = m.sub), flip |-> (MemberSig(m) = Flip(m.sub))]}
                   \cup Nodes(MemberSig(m), p)
                   : ix \in Range(IdxSeq(m.dims))}
-           : i \in {j \in DOMAIN sig : sig[j].kind = "sig"}}
+           : i \in {j \in DOMAIN sig.ms : sig.ms[j].kind = "sig"}}
+
+(* the same walk, carrying the signature of every sub-interface: set of <<path, signature>>      *)
+RECURSIVE NodeSigs(_, _)
+NodeSigs(sig, path) ==
+    UNION {LET m == Mem(sig)[i] IN
+           UNION {LET p == path \o <<m.name>> \o ix IN
+                  {<<p, MemberSig(m)>>} \cup NodeSigs(MemberSig(m), p)
+                  : ix \in Range(IdxSeq(m.dims))}
+           : i \in {j \in DOMAIN sig.ms : sig.ms[j].kind = "sig"}}
+
+(* every signature value occurring in the tree: the node itself and all declared descriptions    *)
+RECURSIVE AllSigs(_)
+AllSigs(sig) == {sig} \cup UNION {AllSigs(sig.ms[i].sub) : i \in {j \in DOMAIN sig.ms : sig.ms[j].kind = "sig"}}
+HasIdent(sig) == \E n \in AllSigs(sig) : n.nm = "ident"
 
 ----------------------------------------------------------------------------
 (* TLC note: LET definitions and operator arguments are re-evaluated at every use in this      *)
@@ -136,13 +179,18 @@ Only(S) == CHOOSE v \in S : TRUE
 
 ----------------------------------------------------------------------------
 (* Compliance (Signature.is_compliant).  An interface description is                             *)
-(*   [sig: the value of its `signature` attribute, leaves: set of [path, impl, w, s, init]]      *)
-(* impl = "signal" (init = its initial value) or "const" (init = its value).  lv = Leaves(sig). *)
-Created(sig, lv) == [sig |-> sig,
-                     leaves |-> {[path |-> l.path, impl |-> "signal", w |-> l.w, s |-> l.s, init |-> l.init]
-                                 : l \in lv}]
-Compliant(sig, lv, d) ==
+(*   [sig: the value of its `signature` attribute, leaves: set of [path, impl, w, s, init],       *)
+(*    nodes: set of <<path, the `signature` attribute of the sub-interface found there>>]         *)
+(* impl = "signal" (init = its initial value) or "const" (init = its value).                    *)
+(* lv = Leaves(sig), ns = NodeSigs(sig): "obj has a signature attribute ... such that             *)
+(* self == obj.signature; ... for signature members, matches the description in the signature as  *)
+(* verified by Signature.is_compliant" (of the member's signature, recursively).                 *)
+Created(sig, lv, ns) == [sig |-> sig, nodes |-> ns,
+                         leaves |-> {[path |-> l.path, impl |-> "signal", w |-> l.w, s |-> l.s, init |-> l.init]
+                                     : l \in lv}]
+Compliant(sig, lv, ns, d) ==
     /\ sig = d.sig
+    /\ ns = d.nodes
     /\ {l.path : l \in d.leaves} = {l.path : l \in lv}
     /\ \A l \in lv : \A o \in d.leaves :
           o.path = l.path => /\ o.w = l.w /\ o.s = l.s
@@ -247,7 +295,7 @@ VarArgs(t) == IF Len(t) = 2 THEN {1, 2} ELSE {1, 3}
 
 CorruptArg(x, k, mp, rm, new) ==
     Only({ArgOf(Flatten(IF k = "S" THEN y ELSE Flip(y), <<>>))
-          : y \in {Norm([fl |-> FALSE, ms |-> Upd(x.ms, mp, rm, new)])}})
+          : y \in {Norm([x EXCEPT !.ms = Upd(@, mp, rm, new)])}})
 
 (* dumped as <<tuple, corrupted argument, member path, kind, new flow, dims, w, s, init, outcome>> *)
 Variant(t, base, a, mp, kind, m, arg) ==
@@ -298,7 +346,7 @@ NamesOf(path) == SelectSeq(path, LAMBDA e : ~IsIdx(e))
 KindSig(k, x) == IF k = "S" THEN Norm(x) ELSE Flip(Norm(x))
 QTuples == IF Triples THEN << <<"S", "F">>, <<"S", "F", "F">>, <<"S", "S", "F">> >>
            ELSE << <<"S", "F">>, <<"S", "F", "F">> >>
-QArg(x, k, mp, m) == ArgOf(Flatten(KindSig(k, [fl |-> FALSE, ms |-> Upd(x.ms, mp, FALSE, m)]), <<>>))
+QArg(x, k, mp, m) == ArgOf(Flatten(KindSig(k, [x EXCEPT !.ms = Upd(@, mp, FALSE, m)]), <<>>))
 QEnc(mem) == [i \in DOMAIN mem |-> <<mem[i].flow, mem[i].dims, mem[i].w, mem[i].s, mem[i].init>>]
 QuietVariants(x, as, af) ==
     UNION {UNION {
@@ -321,62 +369,90 @@ QuietVariants(x, as, af) ==
 
 (* Corrupted interface objects for is_compliant: one leaf replaced / one leaf missing.           *)
 (* dumped as <<path, impl, w, s, init, is it compliant>>                                         *)
-ObjVariants(s, ls) ==
+ObjVariants(s, ls, ns) ==
     LET Repl(good, l, o) == [good EXCEPT !.leaves = (@ \ {q \in @ : q.path = l.path}) \cup o] IN
     UNION {UNION {
-           {<<l.path, n.impl, n.w, n.s, n.init, Compliant(s, ls, Repl(good, l, {n}))>>
+           {<<l.path, n.impl, n.w, n.s, n.init, Compliant(s, ls, ns, Repl(good, l, {n}))>>
             : n \in {[path |-> l.path, impl |-> "signal", w |-> 3 - l.w, s |-> FALSE, init |-> 0],
                      [path |-> l.path, impl |-> "signal", w |-> 2, s |-> ~l.s, init |-> l.init],
                      [path |-> l.path, impl |-> "signal", w |-> l.w, s |-> l.s, init |-> 1 - l.init],
                      [path |-> l.path, impl |-> "const", w |-> l.w, s |-> l.s, init |-> 1 - l.init],
                      [path |-> l.path, impl |-> "const", w |-> 3 - l.w, s |-> FALSE, init |-> 0]}}
-           \cup {<<l.path, "missing", 0, FALSE, 0, Compliant(s, ls, Repl(good, l, {}))>>}
+           \cup {<<l.path, "missing", 0, FALSE, 0, Compliant(s, ls, ns, Repl(good, l, {}))>>}
            : l \in ls}
-           : good \in {Created(s, ls)}}
+           : good \in {Created(s, ls, ns)}}
+
+(* Wrongly oriented sub-interface: in an interface created from s, the sub-interface at ONE path  *)
+(* is replaced by flipped(that sub-interface) -- the same ports, but its signature (and that of   *)
+(* every sub-interface below it) is now the flip of what s declares there.  Such an object does   *)
+(* not comply (unless the flip equals the original), and connect() must refuse it                 *)
+(* ("connect on compliant interfaces"; ConnectionError: "impossible, meaningless, or forbidden    *)
+(* connection").  dumped as <<path, is it compliant, outcome of connect(that object, F)>>         *)
+IsPrefixSeq(p, r) == Len(p) <= Len(r) /\ SubSeq(r, 1, Len(p)) = p
+SwapVariants(s, ls, ns, as, af) ==
+    {Only({<<q[1], ok, IF ok THEN ConnectOutcome(<<as, af>>)
+                       ELSE [errs |-> {"noncompliant_argument"}, edges |-> {}, unspec |-> FALSE]>>
+           : ok \in {Compliant(s, ls, ns, [Created(s, ls, ns) EXCEPT !.nodes =
+                        {<<r[1], IF IsPrefixSeq(q[1], r[1]) THEN Flip(r[2]) ELSE r[2]>> : r \in ns}])}})
+     : q \in ns}
 
 ----------------------------------------------------------------------------
 (* what the real library must show for the tree ms (compact encodings for the state dump) *)
 EncLeaves(fs) == [i \in DOMAIN fs |-> <<fs[i].path, fs[i].flow, fs[i].w, fs[i].s, fs[i].init>>]
-Expect4(x, s, f, fs, ff, ls, lf, as, af) ==
+Expect4(x, s, f, fs, ff, ls, lf, as, af, ns, nf) ==
     [done    |-> TRUE,
+     rootnm  |-> x.nm,
      nleaves |-> NumLeaves(s),
+     memS    |-> [i \in DOMAIN s.ms |-> <<Mem(s)[i].name, Mem(s)[i].flow>>],   \* sig.members: name, flow
+     memF    |-> [i \in DOMAIN f.ms |-> <<Mem(f)[i].name, Mem(f)[i].flow>>],   \* sig.flip().members
+     eqCopy  |-> ~HasIdent(s),                            \* a second, separate construction of the same tree == sig
+     eqData  |-> ([nm |-> "anon", id |-> 0, fl |-> FALSE, ms |-> Mem(f)] = f),   \* Signature(flipped members) == sig.flip()
      flatS   |-> EncLeaves(fs),                           \* <<path, flow, w, s, init>>, ...
      flatF   |-> EncLeaves(ff),
      eqFlip  |-> (s = f),                                 \* sig == sig.flip()
      eqFF    |-> (Flip(f) = s),                           \* sig.flip().flip() == sig
-     compSS  |-> Compliant(s, ls, Created(s, ls)),        \* sig.is_compliant(sig.create())
-     compFF  |-> Compliant(f, lf, Created(f, lf)),
-     compSF  |-> Compliant(s, ls, Created(f, lf)),        \* sig.is_compliant(sig.flip().create())
+     compSS  |-> Compliant(s, ls, ns, Created(s, ls, ns)),        \* sig.is_compliant(sig.create())
+     compFF  |-> Compliant(f, lf, nf, Created(f, lf, nf)),
+     compSF  |-> Compliant(s, ls, ns, Created(f, lf, nf)),        \* sig.is_compliant(sig.flip().create())
+     compFS  |-> Compliant(f, lf, nf, Created(s, ls, ns)),        \* sig.flip().is_compliant(sig.create())
      nodesS  |-> {<<n.path, n.plain, n.flip>> : n \in Nodes(s, <<>>)},
      nodesF  |-> {<<n.path, n.plain, n.flip>> : n \in Nodes(f, <<>>)},
      conn    |-> [t \in DOMAIN Tuples |-> Only({ConnectOutcome(args) : args \in {Mk(Tuples[t], as, af)}})],
      vars    |-> IF Variants THEN SigVariants(x, as, af) ELSE {},
      cvars   |-> IF Variants THEN ConstVariants(ls, as, af) ELSE {},
-     ovars   |-> IF Variants THEN ObjVariants(s, ls) ELSE {},
+     ovars   |-> IF Variants THEN ObjVariants(s, ls, ns) ELSE {},
+     swaps   |-> IF Swaps THEN SwapVariants(s, ls, ns, as, af) ELSE {},
      qvars   |-> IF Quiet THEN QuietVariants(x, as, af) ELSE {}]
 Expect3(x, s, f, fs, ff) ==
-    Only({Expect4(x, s, f, fs, ff, ls, lf, as, af)
-          : ls \in {Range(fs)}, lf \in {Range(ff)}, as \in {ArgOf(fs)}, af \in {ArgOf(ff)}})
+    Only({Expect4(x, s, f, fs, ff, ls, lf, as, af, ns, nf)
+          : ls \in {Range(fs)}, lf \in {Range(ff)}, as \in {ArgOf(fs)}, af \in {ArgOf(ff)},
+            ns \in {NodeSigs(s, <<>>)}, nf \in {NodeSigs(f, <<>>)}})
 Expect2(x, s, f) == Only({Expect3(x, s, f, fs, ff) : fs \in {Flatten(s, <<>>)}, ff \in {Flatten(f, <<>>)}})
 Expect1(x, s) == Only({Expect2(x, s, f) : f \in {Flip(s)}})
-Expect(ms) == Only({Only({Expect1(x, s) : s \in {Norm(x)}}) : x \in {[fl |-> FALSE, ms |-> ms]}})
+RootId == 100
+RootX(ms, nm) == [fl |-> FALSE, ms |-> ms, nm |-> nm, id |-> IF nm = "anon" THEN 0 ELSE RootId]
+Expect(ms, nm) == Only({Only({Expect1(x, s) : s \in {Norm(x)}}) : x \in {RootX(ms, nm)}})
 Open == [done |-> FALSE]
 
 ----------------------------------------------------------------------------
 ----------------------------------------------------------------------------
 (* the builder *)
 Names(d) == IF d = 1 THEN <<"p", "c", "t">> ELSE IF d = 2 THEN <<"a", "z", "m">> ELSE <<"k", "e", "r">>
-NoSub == [fl |-> FALSE, ms |-> <<>>]
+NoSub == [fl |-> FALSE, ms |-> <<>>, nm |-> "anon", id |-> 0]
+RECURSIVE CountSigs(_)
+CountSigs(ms) == IF ms = <<>> THEN 0
+                 ELSE (IF Head(ms).kind = "sig" THEN 1 + CountSigs(Head(ms).sub.ms) ELSE 0) + CountSigs(Tail(ms))
 RECURSIVE CountMs(_)
 CountMs(ms) == IF ms = <<>> THEN 0 ELSE 1 + CountMs(Head(ms).sub.ms) + CountMs(Tail(ms))
 Total == (Len(stack) - 1) + SumSeq([i \in DOMAIN stack |-> CountMs(stack[i].ms)])
 Top == stack[Len(stack)]
 Room == Len(Top.ms) < MaxPerLevel /\ Total < MaxMembers
 NextName == Names(Len(stack))[Len(Top.ms) + 1]
-ExpOf(st) == IF Len(st) = 1 THEN Expect(st[1].ms) ELSE Open
+ExpOf(st) == IF Len(st) = 1 THEN Expect(st[1].ms, st[1].nm) ELSE Open
 
-Init == /\ stack = << [flow |-> "Out", dims |-> <<>>, fl |-> FALSE, ms |-> <<>>] >>
-        /\ exp = Expect(<<>>)
+Init == \E nm \in RootNm :
+        /\ stack = << [flow |-> "Out", dims |-> <<>>, fl |-> FALSE, nm |-> nm, ms |-> <<>>] >>
+        /\ exp = Expect(<<>>, nm)
 
 Push(st, m) == [st EXCEPT ![Len(st)].ms = Append(@, m)]
 
@@ -387,9 +463,9 @@ AddPort(flow, dims, a) ==
        stack' = Push(stack, m)
     /\ exp' = ExpOf(stack')
 
-OpenSub(flow, dims, fl) ==
+OpenSub(flow, dims, fl, nm) ==
     /\ Room /\ Len(stack) < MaxDepth
-    /\ stack' = Append(stack, [flow |-> flow, dims |-> dims, fl |-> fl, ms |-> <<>>])
+    /\ stack' = Append(stack, [flow |-> flow, dims |-> dims, fl |-> fl, nm |-> nm, ms |-> <<>>])
     /\ exp' = Open
 
 CloseSub ==
@@ -397,19 +473,34 @@ CloseSub ==
     /\ LET fr == Top
            st == SubSeq(stack, 1, Len(stack) - 1)
            m == [name |-> Names(Len(st))[Len(st[Len(st)].ms) + 1], flow |-> fr.flow, dims |-> fr.dims,
-                 kind |-> "sig", w |-> 0, s |-> FALSE, init |-> 0, sub |-> [fl |-> fr.fl, ms |-> fr.ms]] IN
+                 kind |-> "sig", w |-> 0, s |-> FALSE, init |-> 0,
+                 sub |-> [fl |-> fr.fl, ms |-> fr.ms, nm |-> fr.nm,
+                          \* a new object: ids are the number of signatures closed so far (struct: class parameter 7)
+                          id |-> IF fr.nm = "ident" THEN 1 + SumSeq([i \in DOMAIN stack |-> CountSigs(stack[i].ms)])
+                                 ELSE IF fr.nm = "struct" THEN 7 ELSE 0]] IN
        stack' = Push(st, m)
     /\ exp' = ExpOf(stack')
 
+(* another member whose description is THE SAME named signature object as the previous member's, *)
+(* plain or flipped, with its own flow and dimensions                                            *)
+ReuseSub(flow, dims, fl) ==
+    /\ Room /\ Top.ms # <<>>
+    /\ LET last == Top.ms[Len(Top.ms)] IN
+       /\ last.kind = "sig" /\ last.sub.nm # "anon"
+       /\ Total + CountMs(last.sub.ms) < MaxMembers
+       /\ stack' = Push(stack, [last EXCEPT !.name = NextName, !.flow = flow, !.dims = dims, !.sub.fl = fl])
+    /\ exp' = ExpOf(stack')
+
 Next == \/ \E flow \in {"In", "Out"}, dims \in PortDims, a \in PortAttrs : AddPort(flow, dims, a)
-        \/ \E flow \in {"In", "Out"}, dims \in SubDims, fl \in SubFlips : OpenSub(flow, dims, fl)
+        \/ \E flow \in {"In", "Out"}, dims \in SubDims, fl \in SubFlips, nm \in SubNm : OpenSub(flow, dims, fl, nm)
         \/ CloseSub
+        \/ \E flow \in {"In", "Out"}, dims \in SubDims, fl \in BOOLEAN : ReuseSub(flow, dims, fl)
 Spec == Init /\ [][Next]_vars
 
 (* Theorems, checked on every closed state.  exp.conn[ti] = ConnectOutcome(Mk(Tuples[ti], ..)) *)
 (* is the value carried by the state (computed by Expect).                                     *)
 Closed == Len(stack) = 1
-X == [fl |-> FALSE, ms |-> stack[1].ms]
+X == RootX(stack[1].ms, stack[1].nm)
 (* Th(P): P(x, s, f, fs, ff) holds for the tree of a closed state, with                          *)
 (* s = Norm(x), f = Flip(s), fs = Flatten(s), ff = Flatten(f)                                    *)
 Th(P(_, _, _, _, _)) ==
@@ -429,8 +520,19 @@ EachLeafOnce ==
         /\ Cardinality({fs[i].path : i \in DOMAIN fs}) = Len(fs))
 CreatedComplies ==
     Th(LAMBDA x, s, f, fs, ff :
-        /\ Compliant(s, Range(fs), Created(s, Range(fs)))
-        /\ Compliant(f, Range(ff), Created(f, Range(ff))))
+        /\ \A ns \in {NodeSigs(s, <<>>)} : Compliant(s, Range(fs), ns, Created(s, Range(fs), ns))
+        /\ \A nf \in {NodeSigs(f, <<>>)} : Compliant(f, Range(ff), nf, Created(f, Range(ff), nf)))
+NeverOwnFlip ==     \* a signature with members, or a named one, is never equal to its own flip; flip is an involution
+    Th(LAMBDA x, s, f, fs, ff :
+        \A n \in AllSigs(s) \cup AllSigs(f) :
+            /\ Flip(Flip(n)) = n
+            /\ (n.ms # <<>> \/ n.nm # "anon") => Flip(n) # n
+            /\ (n.ms = <<>> /\ n.nm = "anon") => Flip(n) = n)
+WrongWayRejected == \* the interface created from the flip does not comply (and vice versa) unless flip = original
+    Th(LAMBDA x, s, f, fs, ff :
+        \A ns \in {NodeSigs(s, <<>>)} : \A nf \in {NodeSigs(f, <<>>)} :
+            /\ Compliant(s, Range(fs), ns, Created(f, Range(ff), nf)) <=> (s = f)
+            /\ Compliant(f, Range(ff), nf, Created(s, Range(fs), ns)) <=> (s = f))
 PermInvariant ==    \* connect does not depend on the order of its arguments
     Th(LAMBDA x, s, f, fs, ff :
         \A as \in {ArgOf(fs)} : \A af \in {ArgOf(ff)} :
